@@ -29,6 +29,9 @@ type Conn struct {
 	// OnWrite, when set, is called before a write is recorded; it may block (a gate) and may
 	// return an error to make the write fail. It is called without c.mu held.
 	OnWrite func(b []byte, to net.Addr) error
+	// Custom: sources are delivered as Addr values instead of *net.UDPAddr
+	Custom bool
+	zones  map[string]string // ip:port -> IPv6 zone of the datagrams delivered from there
 }
 
 type pkt struct {
@@ -47,7 +50,18 @@ type Out struct {
 	B    []byte
 	To   *net.UDPAddr
 	When time.Time
+	// Foreign: the address object given to WriteTo is not the kind this transport hands out with the datagrams it
+	// delivers (another type, or the IPv6 zone of the source was lost): a transport other than plain UDP could not
+	// route it
+	Foreign bool
 }
+
+// Addr is what a transport other than UDP hands out as source address: some net.Addr that is neither a
+// *net.UDPAddr nor a *net.TCPAddr.
+type Addr struct{ U *net.UDPAddr }
+
+func (a Addr) Network() string { return "sim" }
+func (a Addr) String() string  { return a.U.String() }
 
 func NewConn(local string) *Conn {
 	la, err := net.ResolveUDPAddr("udp", local)
@@ -75,6 +89,19 @@ func (c *Conn) ReadFrom(b []byte) (int, net.Addr, error) {
 		c.prevAck = p.ack
 		c.mu.Unlock()
 		n := copy(b, p.b)
+		if ua, ok := p.from.(*net.UDPAddr); ok {
+			if ua.Zone != "" {
+				c.mu.Lock()
+				if c.zones == nil {
+					c.zones = map[string]string{}
+				}
+				c.zones[(&net.UDPAddr{IP: ua.IP, Port: ua.Port}).String()] = ua.Zone
+				c.mu.Unlock()
+			}
+			if c.Custom {
+				return n, Addr{ua}, nil
+			}
+		}
 		return n, p.from, nil
 	case <-c.closed:
 		return 0, nil, net.ErrClosed
@@ -118,10 +145,22 @@ func (c *Conn) WriteTo(b []byte, to net.Addr) (int, error) {
 			return 0, err
 		}
 	}
-	ua, _ := to.(*net.UDPAddr)
+	var ua *net.UDPAddr
+	foreign := false
+	switch t := to.(type) {
+	case *net.UDPAddr:
+		ua, foreign = t, c.Custom
+	case Addr:
+		ua, foreign = t.U, !c.Custom
+	}
 	c.mu.Lock()
+	if ua != nil {
+		if z := c.zones[(&net.UDPAddr{IP: ua.IP, Port: ua.Port}).String()]; z != "" && ua.Zone != z {
+			foreign = true
+		}
+	}
 	c.seq++
-	o := Out{Seq: c.seq, B: append([]byte{}, b...), To: ua, When: time.Now()}
+	o := Out{Seq: c.seq, B: append([]byte{}, b...), To: ua, When: time.Now(), Foreign: foreign}
 	c.out = append(c.out, o)
 	c.all = append(c.all, OutF{o, false})
 	c.cond.Broadcast()
